@@ -1712,6 +1712,15 @@ func runR73(c *Ctx) {
 			case isConstBool(flag, true):
 				if underNil || underEmptyNull {
 					c.ok(key, pos, "null under a guard that the source pointer is nil / the field is empty with EmptyNull")
+				} else if overriddenUnder(call, func(b *ssa.BasicBlock) bool {
+					for _, g := range dominatingGuards(b) {
+						if bo, ok := nilTestOfStrPtr(g.Cond); ok && (bo.Op == token.EQL) != g.Val {
+							return true
+						}
+					}
+					return false
+				}) {
+					c.ok(key, pos, "default null cell, replaced by a non-null cell on the branch where the source pointer is not nil")
 				} else {
 					c.bad(key, pos, "a cell is marked null without a dominating test that its source pointer is nil")
 				}
@@ -2126,4 +2135,38 @@ func runR78(c *Ctx) {
 			}
 		})
 	}
+}
+
+// overriddenUnder: the call's result is a default that only flows into phis whose other edges are NewPointer
+// calls made in blocks satisfying cond (`p := null; if val != nil { p = nonNull }`).
+func overriddenUnder(call *ssa.Call, cond func(b *ssa.BasicBlock) bool) bool {
+	refs := call.Referrers()
+	if refs == nil || len(*refs) == 0 {
+		return false
+	}
+	n := 0
+	for _, r := range *refs {
+		switch t := r.(type) {
+		case *ssa.DebugRef:
+		case *ssa.Phi:
+			n++
+			others := 0
+			for _, e := range t.Edges {
+				if e == ssa.Value(call) {
+					continue
+				}
+				oc, ok := e.(*ssa.Call)
+				if !ok || !isFuncNamed(calleeObj(oc), rel("internal/strings"), "", "NewPointer") || !cond(oc.Block()) {
+					return false
+				}
+				others++
+			}
+			if others == 0 {
+				return false
+			}
+		default:
+			return false
+		}
+	}
+	return n > 0
 }
